@@ -106,6 +106,9 @@ type Engine struct {
 	trackExempt map[ObjID]bool
 	files       map[string]*SliceV
 	fmtFail     bool
+	deferFrames int     // deferred calls registered and not yet run (over all live paths; paths that die without running theirs leave it too high, which only costs precision)
+	splits      int     // number of times an execution state was split in two
+	panicking   *unwind // set while deferred calls run because of a panic
 	ndSeen      map[string]bool
 	sharedObjs  map[ObjID]bool // package-level variables and everything package initialisers created
 	MapOrder    func(n int) []int
@@ -306,6 +309,16 @@ func (e *Engine) mergeSt(a, b *St) *St {
 			out.env[k] = vb
 		}
 	}
+	for k, v := range out.env {
+		if _, isDL := v.(*deferList); isDL {
+			if _, ina := a.env[k]; !ina {
+				e.unsupported("merge of paths with different pending deferred calls")
+			}
+			if _, inb := b.env[k]; !inb {
+				e.unsupported("merge of paths with different pending deferred calls")
+			}
+		}
+	}
 	return out
 }
 
@@ -321,6 +334,49 @@ type frame struct {
 	fi       *fnInfo
 	returns  []retRec
 	forkMode bool // keep paths separate inside this function (merged again at return)
+	hasDefer bool // the function contains defer statements
+}
+
+// deferList is the list of pending deferred calls of one frame along one path; it lives in the
+// state's environment under the function as key, so that it forks with the path.
+type deferList struct{ recs []deferRec }
+
+func (fr *frame) defers(st *St) []deferRec {
+	if dl, ok := st.env[fr.fn].(*deferList); ok {
+		return dl.recs
+	}
+	return nil
+}
+
+func fnHasDefer(fn *ssa.Function) bool {
+	for _, b := range fn.Blocks {
+		for _, in := range b.Instrs {
+			if _, ok := in.(*ssa.Defer); ok {
+				return true
+			}
+		}
+	}
+	return false
+}
+
+// deferRec: a deferred call with its operands evaluated at the defer statement.
+type deferRec struct {
+	fn   *ssa.Function // static callee, or nil
+	fv   *FuncV        // closure / function value
+	args []Value
+	call *ssa.CallCommon
+}
+
+// unwind is raised (as a Go panic inside the engine) by a panic of the program under analysis
+// while some frame below has deferred calls pending; it is caught at the call instruction of that
+// frame. Only unconditional panics on an execution that has not branched since that call are
+// supported (anything else is reported as unsupported = inconclusive).
+type unwind struct {
+	val Value
+	st  *St
+	msg string
+	pos string
+	stk string
 }
 
 func (e *Engine) loopBound(fn *ssa.Function) int {
@@ -532,8 +588,68 @@ func (e *Engine) panicIf(st *St, cond *T, msg string) {
 	if c.IsFalse() {
 		return
 	}
+	if e.deferFrames > 0 && e.booting == 0 {
+		if !cond.IsTrue() {
+			if !e.feasible(c) {
+				// cannot happen on this path
+				st.pc = e.S.And(st.pc, e.S.Not(cond))
+				return
+			}
+			if e.feasible(e.S.And(st.pc, e.S.Not(cond))) {
+				e.unsupported("conditional run-time panic (" + msg + ") below a function with deferred calls")
+			}
+		}
+		panic(&unwind{val: e.constStringIface("runtime error: " + msg), st: st, msg: msg, pos: e.curPos(), stk: e.where()})
+	}
 	e.Panics = append(e.Panics, Record{Cond: c, Msg: msg, Pos: e.curPos(), Stack: e.where(), Kind: "panic"})
 	st.pc = e.S.And(st.pc, e.S.Not(cond))
+}
+
+func (e *Engine) constStringIface(s string) Value {
+	return &IfaceV{Alts: []IfaceAlt{{G: e.S.True, T: types.Typ[types.String], V: e.constString(s)}}}
+}
+
+// runDefers executes the pending deferred calls of fr (last in, first out) on st.
+func (e *Engine) runDefers(fr *frame, st *St) {
+	ds := fr.defers(st)
+	delete(st.env, fr.fn)
+	e.deferFrames -= len(ds)
+	for i := len(ds) - 1; i >= 0; i-- {
+		d := ds[i]
+		if st.pc.IsFalse() {
+			return
+		}
+		if d.fn != nil {
+			e.callStatic(st, d.fn, d.args, nil, d.call)
+		} else {
+			e.callFuncV(st, d.fv, d.args, d.call)
+		}
+	}
+}
+
+// panicInFrame handles a panic that reached frame fr (raised in fr itself or caught at one of
+// its call instructions): the frame's deferred calls run; if one of them recovers, the function
+// returns normally (zero results: named results are not modelled); otherwise the panic goes on.
+// st is fr's state on the panicking path. Returns after the path has been disposed of.
+func (e *Engine) panicInFrame(fr *frame, st *St, u *unwind) {
+	if len(fr.defers(st)) > 0 {
+		e.panicking = u
+		e.runDefers(fr, st)
+		if e.panicking == nil {
+			if fr.fn.Signature.Results().Len() > 0 && fr.fn.Recover == nil {
+				e.unsupported("recovered panic in a function with unnamed results")
+			}
+			fr.returns = append(fr.returns, retRec{st: st, vals: e.zeroResults(fr.fn)})
+			return
+		}
+		e.panicking = nil
+	}
+	if e.deferFrames > 0 {
+		u.st = st
+		panic(u)
+	}
+	e.Panics = append(e.Panics, Record{Cond: st.pc, Msg: u.msg, Pos: u.pos, Stack: u.stk, Kind: "explicit-panic"})
+	st.pc = e.S.False
 }
 
 func (e *Engine) curPos() string {
@@ -601,7 +717,7 @@ func (e *Engine) callMulti(st *St, fn *ssa.Function, args []Value, bind []Value)
 	if e.Cfg.Trace && e.booting == 0 {
 		fmt.Fprintf(os.Stderr, "%*scall %s terms=%d\n", len(e.stack), "", fn.String(), e.S.Created)
 	}
-	fr := &frame{fn: fn, fi: e.info(fn), forkMode: e.Cfg.ForkFuncs[fn.Name()] && e.booting == 0}
+	fr := &frame{fn: fn, fi: e.info(fn), forkMode: e.Cfg.ForkFuncs[fn.Name()] && e.booting == 0, hasDefer: fnHasDefer(fn)}
 	savedStack, savedPos := e.stack, e.posStack
 	e.stack = append(e.stack, fn)
 	e.posStack = append(e.posStack, token.NoPos)
